@@ -206,6 +206,14 @@ fn process_swaps_for_single_pool<C: ContentAddrStore>(
             }
         })
         .fold(0u128, |a, b| a.saturating_add(b.0));
+    // A pool one of whose reserves is still empty once the batch is paid in has no price (`swap_many` would divide by
+    // zero): nothing can be swapped against it, the requests stay as they are. User-created pools get there by being
+    // withdrawn completely, or by a first deposit with nothing on one side.
+    if pool_state.lefts.saturating_add(total_lefts) == 0
+        || pool_state.rights.saturating_add(total_rights) == 0
+    {
+        return;
+    }
     // transmute coins
     let (left_withdrawn, right_withdrawn) = pool_state.swap_many(total_lefts, total_rights);
 
@@ -293,6 +301,13 @@ fn process_deposits_for_single_pool<C: ContentAddrStore>(
         .fold(0u128, |a, b| a.saturating_add(b));
 
     let total_mtsqrt = total_lefts.sqrt().saturating_mul(total_rights.sqrt());
+    // A pool that has liquidity but an empty reserve gives no proportion to mint in (`deposit` would divide by zero): the
+    // requests stay as they are.
+    if let Some(pool_state) = state.pools.get(pool) {
+        if pool_state.liqs != 0 && (pool_state.lefts == 0 || pool_state.rights == 0) {
+            return;
+        }
+    }
     // main logic here
     let total_liqs = if let Some(mut pool_state) = state.pools.get(pool) {
         let liq = pool_state.deposit(total_lefts, total_rights);
@@ -388,6 +403,10 @@ fn process_withdrawals_for_single_pool<C: ContentAddrStore>(
         .fold(0u128, |a, b| a.saturating_add(b));
     // get the state
     let mut pool_state = state.pools.get(pool).unwrap();
+    // nothing can be redeemed from a pool without liquidity (`withdraw` would compute 0/0 for a batch of zero-valued requests)
+    if pool_state.liqs == 0 {
+        return;
+    }
     let (total_left, total_write) = pool_state.withdraw(total_liqs);
     state.pools.insert(*pool, pool_state);
     // divvy up the lefts and rights
